@@ -101,7 +101,7 @@ func (p *progGen) id(prefix string) string {
 }
 
 func (p *progGen) strE() string {
-	opts := []string{"s1", "s2", `"lit"`, "st.Name", "mp.k1", "strs.0", "yv(s1)", `st.Greet("x")`, "strg", "st.Next.Name", `""`, "nl"}
+	opts := []string{"s1", "s2", `"lit"`, "st.Name", "mp.k1", "strs.0", "yv(s1)", `st.Greet("x")`, "strg", "st.Next.Name", `""`, "nl", "glob", "glob"}
 	opts = append(opts, p.locals...)
 	opts = append(opts, p.loopVars...)
 	e := p.pick(opts)
@@ -666,14 +666,14 @@ func (w *World) BuildCtx(d CtxDesc) pongo2.Context {
 		"s1":        []string{"hello <b>&", "wörld", ""}[v],
 		"s2":        []string{"abc", "x y z", "<i>"}[v],
 		"n1":        []int{3, 0, 7}[v],
-		"n2":        []int{5, 2, -1}[v],
+		"n2":        []any{5, 2, -1.5}[v],
 		"z":         0,
 		"f1":        []float64{1.5, 2.0, 0.25}[v],
 		"b1":        []bool{true, false, true}[v],
 		"nl":        nil,
-		"lst":       [][]int{{1, 2, 3}, {}, {5, 5}}[v],
+		"lst":       []any{[]int{1, 2, 3}, []int{}, []string{"5", "5x"}}[v],
 		"strs":      [][]string{{"a", "b", "c"}, {"x"}, {"q", "a"}}[v],
-		"mp":        []map[string]any{{"k1": "v1", "k2": 2}, {"k1": "<v>"}, {"k1": "", "k3": 3.5, "k0": "z"}}[v],
+		"mp":        []any{map[string]any{"k1": "v1", "k2": 2}, map[string]string{"k1": "<v>"}, map[string]any{"k1": "", "k3": 3.5, "k0": "z"}}[v],
 		"st":        st,
 		"strg":      simStringer{[]string{"x", "<y>", ""}[v]},
 		"poly":      []any{&polyMethods{"PM"}, map[string]any{"Name": "mapname<", "Title": "maptitle", "Kids": []string{"k1"}}, polyFields{Name: "fieldname", Nick: "nick&", Kids: []int{7, 8}}}[v],
@@ -700,6 +700,9 @@ func (w *World) BuildCtx(d CtxDesc) pongo2.Context {
 	}
 	if d.BadKey {
 		ctx["bad-key"] = "plain string value"
+	}
+	if v == 2 {
+		ctx["glob"] = "ctx-overrides-global" // a context key shadows the set's global of the same name
 	}
 	return ctx
 }
